@@ -85,13 +85,31 @@ fn check_case(c: &SeqCase, obs: &mut Obs) -> Verdict {
 fn strat(tier: Tier) -> BoxedStrategy<SeqCase> {
     // LCS uses a BTreeMap table: keep its inputs <= 100 items
     prop_oneof![
-        3 => seq_case(tier.pick(40, 100), true, 3),
-        1 => seq_case(tier.pick(100, 300), true, 3).prop_map(|mut c| {
+        60 => seq_case(tier.pick(40, 100), true, 3),
+        20 => seq_case(tier.pick(100, 300), true, 3).prop_map(|mut c| {
             c.alg = 0;
             c
         }),
+        // LCS beyond 128 items per side: distinct items rearranged by block moves and reversals (the
+        // best common subsequence pairs positions that are far apart), and unrelated filler around
+        // a few shared blocks (1 case in ~100: the table is a BTreeMap)
+        1 => prop_oneof![
+            perm_pair(130, tier.pick(260, 420)),
+            (130usize..tier.pick(300usize, 420), 130usize..tier.pick(300usize, 420), proptest::collection::vec((any::<u16>(), any::<u16>(), 1usize..6), 1..=4)).prop_map(|(n, m, blocks)| {
+                let mut a: Vec<u32> = (0..n as u32).map(|i| 1_000_000 + i).collect();
+                let mut b: Vec<u32> = (0..m as u32).map(|i| 2_000_000 + i).collect();
+                for (i, (pa, pb, len)) in blocks.into_iter().enumerate() {
+                    let (x, y) = (pos(pa, a.len() - len), pos(pb, b.len() - len));
+                    for t in 0..len {
+                        a[x + t] = (i * 10 + t) as u32;
+                        b[y + t] = (i * 10 + t) as u32;
+                    }
+                }
+                (a, b)
+            }),
+        ].prop_map(|(a, b)| SeqCase::full(2, a, b)),
         // two sorted "pages" of consecutive values that overlap in a few boundary records
-        1 => (0u32..50, 100usize..300, 100usize..300, 1usize..60, 1usize..4, 0u8..3).prop_map(|(start, n, m, overlap, rep, mode)| {
+        20 => (0u32..50, 100usize..300, 100usize..300, 1usize..60, 1usize..4, 0u8..3).prop_map(|(start, n, m, overlap, rep, mode)| {
             let a: Vec<u32> = (0..n).map(|i| start + (i / rep) as u32).collect();
             let last = *a.last().unwrap();
             let first_b = last.saturating_sub((overlap / rep) as u32);
@@ -101,7 +119,7 @@ fn strat(tier: Tier) -> BoxedStrategy<SeqCase> {
             c
         }),
         // Myers with a LARGE edit distance (deep searches: D in the hundreds)
-        1 => (2u32..8, proptest::collection::vec(0u32..64, 150..=tier.pick(400usize, 900)), proptest::collection::vec(0u32..64, 150..=tier.pick(400usize, 900)), 0u8..3).prop_map(|(k, a, b, mode)| {
+        20 => (2u32..8, proptest::collection::vec(0u32..64, 150..=tier.pick(400usize, 900)), proptest::collection::vec(0u32..64, 150..=tier.pick(400usize, 900)), 0u8..3).prop_map(|(k, a, b, mode)| {
             let mut c = SeqCase::full(0, a.into_iter().map(|x| x % k).collect(), b.into_iter().map(|x| x % k).collect());
             c.mode = mode;
             c
@@ -177,10 +195,10 @@ impl Prop for C03 {
     type Case = SeqCase;
     const ID: &'static str = "C03";
     fn rule() -> String {
-        "cases = (Myers|Lcs, old, new, ranges, capture entry point), no deadline; size-ordered enumeration of all pairs over {0,1,2} plus proptest mixture (small alphabets, forced common prefix/suffix, sub-ranges). Oracle: independent O(NM) LCS length L; raw stream and captured ops must delete+insert exactly N+M-2L items, keep exactly L, and ratio == 2L/(N+M) (f32, same rounding). Non-trivial = 0 < L < min(N,M) and D > 0; distinct = distinct serialized case.".into()
+        "cases = (Myers|Lcs, old, new, ranges, capture entry point), no deadline; size-ordered enumeration of all pairs over {0,1,2} plus proptest mixture (small alphabets, forced common prefix/suffix, sub-ranges; Myers with D in the hundreds; LCS on 130-420 distinct items rearranged by block moves or unrelated filler around a few shared blocks). Oracle: independent O(NM) LCS length L; raw stream and captured ops must delete+insert exactly N+M-2L items, keep exactly L, and ratio == 2L/(N+M) (f32, same rounding). Non-trivial = 0 < L < min(N,M) and D > 0; distinct = distinct serialized case.".into()
     }
     fn assumptions() -> Vec<String> {
-        vec!["LCS inputs are capped at 100 items (its table is a BTreeMap); Myers up to 300".into()]
+        vec!["LCS inputs are mostly <= 100 items (its table is a BTreeMap), 1 case in ~120 has 130-420 items per side; Myers up to 900".into()]
     }
     fn stages(tier: Tier) -> Vec<Stage<SeqCase>> {
         vec![
